@@ -155,5 +155,5 @@ reg("C06", "^TestC06$", q=(25, 4, 1500), t=(300, 16, 7200), batch=25,
     text="Exploration: the real reorg detector, downloader, driver and L1 info processor follow a scripted chain that forks above the "
          "finalized frontier at generated moments; when the chain stops changing and the node is idle its leaves must be those of "
          "the canonical chain; isolated forks of delivered blocks must produce a rewind at or before the first replaced block; no rewind without a replaced delivered block.",
-    note="Trusted: fakechain; quiescence = >=30 tip polls and >=3 detector sweeps without a log query; 'idle and different' for 3 s is a violation, a 20 s cap is inconclusive. The Go scheduler inside the node is not controlled (races R1/R2 of DESIGN §5 are out of reach).",
+    note="Trusted: fakechain; quiescence = >=30 tip polls and >=3 detector sweeps without a log query; 'idle and different' for 3 s is a violation, a 60-120 s cap is inconclusive. The Go scheduler inside the node is not controlled: schedule-dependent defects are found only statistically (the detector race F7 of DESIGN §8.3 was found this way by the thorough tier and is fixed); a case that fails once and passes on rapid's re-run is still reported, with its history.",
     design="§3 C06")
